@@ -104,7 +104,7 @@ func c12StorageCase(t *testing.T, r *kit.Result, rng *kit.Rand, caseID string, t
 		}
 		if s.sealedNS == nil {
 			for _, n := range w.nss {
-				if n.Sealable && n.Sealed && !n.Parent.effSealed() {
+				if n.Sealable && n.Sealed && !n.Lost && !n.Parent.effSealed() {
 					s.sealedNS, s.unsealAt = n, s.iter+10 // sealed behind our back (see sync): unseal it later
 					break
 				}
@@ -526,6 +526,14 @@ func (s *c12StorageRun) intoSealed() {
 		p = "cubbyhole/shared"
 	}
 	s.pickForm(q, M.NS, p)
+	// Does the reference resolution of this spelling really end in a sealed namespace?
+	// A namespace the core no longer knows (see unsealTree) does not capture its path:
+	// the request then belongs to the parent namespace, where a mount at the same path
+	// may legitimately exist, and it would be an ordinary request to that mount.
+	if rns, _, _ := s.c12Resolve(q.Header, q.Path); rns == nil || !rns.effSealed() {
+		s.r.Count("into_sealed_spellings_that_resolve_outside_the_sealed_namespace", 1)
+		return
+	}
 	s.do(q)
 	s.r.Count("requests_into_sealed_namespace", 1)
 	s.checkSealedUntouched(q)
@@ -541,6 +549,10 @@ func (s *c12StorageRun) intoSealed() {
 
 func (s *c12StorageRun) endSeal() {
 	S := s.sealedNS
+	if S.effSealed() && (S.Lost || S.Parent.effSealed()) {
+		s.sealedNS = nil // not reachable any more (unknown to the core, or an ancestor is sealed)
+		return
+	}
 	if !s.unsealTree(S) {
 		// Observation outside C12: while a namespace is sealed its sys/ mount is not in
 		// the router, so the parent may mount over the namespace's path; the namespace
